@@ -1,8 +1,8 @@
 /-
-Consequences of the invariant of the atomic mesh system: complete tables at
+Consequences of the invariant of the mesh system: complete tables at
 return, deadlock freedom, termination measure.
 -/
-import MpcVerif.Proofs.MeshStep
+import MpcVerif.Proofs.MeshAccept
 
 set_option linter.unusedSimpArgs false
 set_option linter.unusedVariables false
@@ -48,7 +48,7 @@ theorem done_table (c : Cfg) (hc : c.Ok) (s : State) (h : Inv c s) (p : Nat) (hp
       have hne : s.phase 0 ≠ .init := by simp [hd]
       have h0 := hL.waited k (by simp [hd, roundsDone, hk]) hk
       rw [(hL.started hne).2 k hk] at h0
-      exact missing_zero s 0 c.n k h0 q (by omega) hq
+      exact missing_zero s 0 c.n k (by omega) q (by omega) hq
     · have hP := h.peer p (by omega) hp
       have hA := hP.active c.m [] (by simp [hd, prog])
       by_cases hdl : Dials p q
@@ -61,7 +61,7 @@ theorem done_table (c : Cfg) (hc : c.Ok) (s : State) (h : Inv c s) (p : Nat) (hp
           omega
         have h0 := hA.waited k hk hk
         rw [hA.need k hk] at h0
-        exact missing_zero s p p k h0 q hqlt.1 hqlt.2
+        exact missing_zero s p p k (by omega) q hqlt.1 hqlt.2
   cases hcn : s.conn p q k with
   | none => simp [hcn] at hset
   | some v => rw [(h.slot p q k v hcn).1]
@@ -69,8 +69,8 @@ theorem done_table (c : Cfg) (hc : c.Ok) (s : State) (h : Inv c s) (p : Nat) (hp
 /-- Nothing is in flight once every party is done. -/
 theorem done_quiet (c : Cfg) (hc : c.Ok) (s : State) (h : Inv c s)
     (hall : ∀ p, p < c.n → s.phase p = .done) :
-    (∀ j i k, s.pend j i k = false) ∧ (∀ p, p < c.n → s.mail p = none) ∧ (∀ p, s.infl p = none) := by
-  refine ⟨?_, ?_, h.noInfl⟩
+    (∀ j i k, s.pend j i k = false) ∧ (∀ p, p < c.n → s.mail p = none) ∧ (∀ p, s.infl p = Infl.none) := by
+  refine ⟨?_, ?_, ?_⟩
   · intro j i k
     cases hp : s.pend j i k with
     | false => rfl
@@ -82,6 +82,24 @@ theorem done_quiet (c : Cfg) (hc : c.Ok) (s : State) (h : Inv c s)
     by_cases hp0 : p = 0
     · subst hp0; exact h.leader.mail0
     · exact ((h.peer p (by omega) hp).active c.m [] (by simp [hall p hp, prog])).nomail
+  · intro p
+    cases hi : s.infl p with
+    | none => rfl
+    | taken i k =>
+      exfalso
+      have hf := h.takenFacts hi
+      have := done_table c hc s h p hf.jn (hall p hf.jn) i k hf.inn hf.ij hf.km
+      simp [hf.anone] at this
+    | stored i k =>
+      exfalso
+      have hf := h.storedFacts hi
+      have hnd := h.need_pos_stored hi
+      have hz : s.need p k = 0 := by
+        by_cases hp0 : p = 0
+        · subst hp0
+          exact h.leader.waited k (by simp [hall 0 hf.jn, roundsDone, hf.km]) hf.km
+        · exact ((h.peer p (by omega) hf.jn).active c.m [] (by simp [hall p hf.jn, prog])).waited k hf.km hf.km
+      omega
 
 theorem exists_of_missing_pos (s : State) (p b k : Nat) (h : 0 < missing s p b k) :
     ∃ x, 0 < x ∧ x < b ∧ s.conn p x k = none := by
@@ -91,31 +109,38 @@ theorem exists_of_missing_pos (s : State) (p b k : Nat) (h : 0 < missing s p b k
     Option.isNone_iff_eq_none] at hx
   exact ⟨x, hx.2.1, hx.1, hx.2.2⟩
 
-/-- The atomic accept is enabled for every pending connection of a running
-accept goroutine. -/
-theorem accept_enabled (c : Cfg) (hc : c.Ok) (s : State) (h : Inv c s) (j i k : Nat)
-    (hacc : s.acc j = true) (hp : s.pend j i k = true) : (step c s (.accept j i k)).isSome := by
-  have hf := h.pendFacts hp
-  have hnp := h.need_pos hp hacc
-  simp only [step, stepAccDec]
-  rw [if_pos ⟨hacc, h.noInfl j, hp⟩, if_pos ⟨hf.km, hnp⟩]
-  simp only [Option.bind_some, stepAccStore, upd_same]
+/-- An idle accept goroutine can take every pending connection. -/
+theorem take_enabled (c : Cfg) (hc : c.Ok) (s : State) (h : Inv c s) (j i k : Nat)
+    (hacc : s.acc j = true) (hi : s.infl j = .none) (hp : s.pend j i k = true) :
+    (step c s (.accTake j i k)).isSome := by
+  simp only [step, stepAccTake]
+  rw [if_pos ⟨hacc, hi, hp⟩]
+  split <;> rfl
+
+theorem store_enabled (c : Cfg) (s : State) (j i k : Nat) (hi : s.infl j = .taken i k) :
+    (step c s (.accStore j)).isSome := by
+  simp only [step, stepAccStore, hi]
   split
   · rfl
   · split
     · split <;> rfl
     · rfl
 
-/-- Deadlock freedom of the atomic system: in an invariant state in which
-some party's `Connect` has not returned, some event is enabled. -/
+theorem dec_enabled (c : Cfg) (s : State) (j i k : Nat) (hi : s.infl j = .stored i k) :
+    (step c s (.accDec j)).isSome := by
+  simp only [step, stepAccDec, hi]
+  split <;> rfl
+
+/-- Deadlock freedom: in an invariant state in which some party's `Connect`
+has not returned, some event of the code as it is is enabled. -/
 theorem progress (c : Cfg) (hc : c.Ok) (s : State) (h : Inv c s)
     (hnd : ∃ p, p < c.n ∧ s.phase p ≠ .done) :
-    ∃ e, e.atomic = true ∧ (step c s e).isSome := by
+    ∃ e, e.real = true ∧ (step c s e).isSome := by
   have hn2 := hc.n2
   have hm1 := hc.m1
   apply Classical.byContradiction
   intro hstuck
-  have hst : ∀ e, e.atomic = true → step c s e = none := by
+  have hst : ∀ e, e.real = true → step c s e = none := by
     intro e he
     cases hs : step c s e with
     | none => rfl
@@ -127,14 +152,28 @@ theorem progress (c : Cfg) (hc : c.Ok) (s : State) (h : Inv c s)
     have := hst .lconnect rfl
     simp [step, e] at this
   have hacc0 := (hL.started hne).1
+  -- no accept goroutine is inside acceptConn
+  have hnoinfl : ∀ j, s.infl j = .none := by
+    intro j
+    cases hi : s.infl j with
+    | none => rfl
+    | taken i k =>
+      have := store_enabled c s j i k hi
+      rw [hst (.accStore j) rfl] at this
+      simp at this
+    | stored i k =>
+      have := dec_enabled c s j i k hi
+      rw [hst (.accDec j) rfl] at this
+      simp at this
+  have hsb0 : ∀ p k, sbit s p k = 0 := by intro p k; simp [sbit, hnoinfl p]
   -- no accept goroutine has anything to take
   have hnopend : ∀ j i k, s.acc j = true → s.pend j i k = false := by
     intro j i k hacc
     cases hp : s.pend j i k with
     | false => rfl
     | true =>
-      have := accept_enabled c hc s h j i k hacc hp
-      rw [hst (.accept j i k) rfl] at this
+      have := take_enabled c hc s h j i k hacc (hnoinfl j) hp
+      rw [hst (.accTake j i k) rfl] at this
       simp at this
   -- peers are neither before Join nor before the hello
   have hpeer1 : ∀ i, 0 < i → i < c.n → s.phase i ≠ .init ∧ s.phase i ≠ .joined := by
@@ -168,6 +207,7 @@ theorem progress (c : Cfg) (hc : c.Ok) (s : State) (h : Inv c s)
           have := hst (.waitDone 0) rfl
           simp [step, e, e0] at this
         rw [(hL.started hne).2 0 (by omega)] at hneed
+        rw [hsb0, Nat.add_zero] at hneed
         obtain ⟨x, hx0, hxn, hxc⟩ := exists_of_missing_pos s 0 c.n 0 (by omega)
         have hP := h.peer x hx0 hxn
         have hp1 := hpeer1 x hx0 hxn
@@ -175,7 +215,7 @@ theorem progress (c : Cfg) (hc : c.Ok) (s : State) (h : Inv c s)
         | init => exact hp1.1 hph
         | joined => exact hp1.2 hph
         | hello =>
-          have := ((hP.hello hph).2.1 0 0).mpr ⟨rfl, rfl, hxc⟩
+          have := ((hP.hello hph).2.1 0 0).mpr ⟨rfl, rfl, hxc, by rw [hnoinfl 0]; simp⟩
           rw [hnopend 0 x 0 hacc0] at this
           simp at this
         | run k t =>
@@ -261,12 +301,14 @@ theorem progress (c : Cfg) (hc : c.Ok) (s : State) (h : Inv c s)
             rcases hL.shape with e | ⟨k', hk', e⟩ | ⟨r, _, e⟩ | e <;> simp [hph] at e
             omega
           rw [(hL.started hne).2 k hk] at hneed
+          rw [hsb0, Nat.add_zero] at hneed
           obtain ⟨x, hx0, hxn, hxc⟩ := exists_of_missing_pos s 0 c.n k (by omega)
           exact ⟨x, hx0, hxn, ⟨hx0, Or.inl rfl⟩, hxc, hk⟩
         · have hP := h.peer p (by omega) hp
           have hk := hP.runLt k [] hph
           have hA := hP.active k [] (by simp [hph, prog])
           rw [hA.need k hk] at hneed
+          rw [hsb0, Nat.add_zero] at hneed
           obtain ⟨x, hx0, hxp, hxc⟩ := exists_of_missing_pos s p p k (by omega)
           exact ⟨x, hx0, by omega, ⟨hx0, Or.inr hxp⟩, hxc, hk⟩
       -- the dialler i has not dialled it
@@ -275,10 +317,11 @@ theorem progress (c : Cfg) (hc : c.Ok) (s : State) (h : Inv c s)
         | none => rfl
         | some v =>
           exfalso
-          rcases h.dialSlot i p k hdl (by simp [hcn]) with e | e | ⟨_, _, e⟩
+          rcases h.dialSlot i p k hdl (by simp [hcn]) with e | e | ⟨_, _, e⟩ | e
           · rw [hnopend p i k (haccAll p hp)] at e; simp at e
           · simp [hnone] at e
           · exact (hpeer1 i hi0 hin).2 e
+          · rw [hnoinfl p] at e; simp at e
       have hPi := h.peer i hi0 hin
       rcases hpeer2 i hi0 hin with ⟨k', e⟩ | e
       · have hAi := hPi.active k' [] (by simp [e, prog])
